@@ -55,6 +55,11 @@ fn payload(t: usize, i: usize) -> Vec<u8> {
 type Exec = Arc<dyn Fn(usize, Uuid, &Req) -> Resp + Send + Sync>;
 
 pub fn run(mode: Mode, threads: usize, ops_per_thread: usize, seed: u64, new_clients: bool) -> StressOut {
+    run_weighted(mode, threads, ops_per_thread, seed, new_clients, [50, 20, 15, 15])
+}
+
+/// `weights`: AddVersion, GetChildVersion, AddSnapshot, GetSnapshot
+pub fn run_weighted(mode: Mode, threads: usize, ops_per_thread: usize, seed: u64, new_clients: bool, weights: [u32; 4]) -> StressOut {
     let clients: Vec<Uuid> = (0..2).map(|i| Rng::new(seed).fork(0x57 + i).uuid()).collect();
     let mut keep: Vec<Box<dyn std::any::Any>> = vec![];
     let cfg = Config { snapshot_days: 14, snapshot_versions: 1000 };
@@ -62,19 +67,26 @@ pub fn run(mode: Mode, threads: usize, ops_per_thread: usize, seed: u64, new_cli
     // ---- build the system under test and an `exec` closure
     let (exec, final_storage): (Exec, Option<Arc<dyn Storage>>) = match mode {
         Mode::LibMem | Mode::LibSqliteShared | Mode::LibSqlitePerThread => {
+            // the servers own their storages directly (no wrapper that could hide overridden trait
+            // methods); the harness reads the final state through its own handle
             let dir = ScratchDir::new("stress");
-            let mk = |d: &ScratchDir| -> Arc<dyn Storage> {
-                match mode {
-                    Mode::LibMem => Arc::new(InMemoryStorage::new()),
-                    _ => Arc::new(SqliteStorage::new(d.path()).expect("sqlite")),
+            let (servers, handle): (Vec<Arc<Server>>, Arc<dyn Storage>) = match mode {
+                Mode::LibMem => {
+                    let s = Arc::new(Server::new(cfg.to_server(), InMemoryStorage::new()));
+                    (vec![s.clone()], Arc::new(crate::subject::ViaServer(s)))
+                }
+                Mode::LibSqliteShared => {
+                    let s = Arc::new(Server::new(cfg.to_server(), SqliteStorage::new(dir.path()).expect("sqlite")));
+                    (vec![s], Arc::new(SqliteStorage::new(dir.path()).expect("sqlite")))
+                }
+                _ => {
+                    let v: Vec<Arc<Server>> = (0..threads).map(|_| Arc::new(Server::new(cfg.to_server(), SqliteStorage::new(dir.path()).expect("sqlite")))).collect();
+                    (v, Arc::new(SqliteStorage::new(dir.path()).expect("sqlite")))
                 }
             };
-            let first = mk(&dir);
-            let storages: Vec<Arc<dyn Storage>> = if mode == Mode::LibSqlitePerThread { (0..threads).map(|_| mk(&dir)).collect() } else { vec![first.clone()] };
-            let servers: Vec<Arc<Server>> = storages.iter().map(|s| Arc::new(Server::new(cfg.to_server(), Shared(s.clone())))).collect();
             keep.push(Box::new(dir));
             let e: Exec = Arc::new(move |t, c, r| lib_exec(&servers[t % servers.len()], c, r, true));
-            (e, Some(first))
+            (e, Some(handle))
         }
         Mode::SocketMem => {
             let st: Arc<dyn Storage> = Arc::new(InMemoryStorage::new());
@@ -163,7 +175,7 @@ pub fn run(mode: Mode, threads: usize, ops_per_thread: usize, seed: u64, new_cli
             for i in 0..ops_per_thread {
                 let c = if rng.pct(75) { 0 } else { 1 };
                 let l = *latest[c].lock().unwrap();
-                let req = match rng.weighted(&[50, 20, 15, 15]) {
+                let req = match rng.weighted(&weights) {
                     0 => Req::AddVersion { parent: l, data: payload(t, i) },
                     1 => {
                         let p = if known[c].is_empty() || rng.pct(40) { l } else { known[c][rng.usize(known[c].len())] };
@@ -366,6 +378,35 @@ pub fn check_immutability(out: &StressOut) -> Result<u64, String> {
                             return Err(format!("client #{c}: version {vid} is now served with a different payload than it was accepted with"));
                         }
                     }
+                }
+            }
+        }
+    }
+    Ok(n)
+}
+
+/// C11 under concurrency: every GetSnapshot answer is one whole uploaded pair (or not-found),
+/// never an error and never a mixture.
+pub fn check_snapshots(out: &StressOut) -> Result<u64, String> {
+    let mut n = 0u64;
+    for c in 0..out.chains.len() {
+        let mut uploads: Vec<(Uuid, &Vec<u8>, u128)> = vec![];
+        for r in out.recs.iter().filter(|r| r.client == c) {
+            if let Req::AddSnapshot { vid, data } = &r.req {
+                uploads.push((*vid, data, r.inv));
+            }
+        }
+        for r in out.recs.iter().filter(|r| r.client == c) {
+            if let Req::GetSnapshot = &r.req {
+                n += 1;
+                match &r.resp {
+                    Resp::Snap { vid, data } => {
+                        if !uploads.iter().any(|(uv, ud, uinv)| uv == vid && *ud == data && *uinv < r.ret) {
+                            return Err(format!("client #{c}: GetSnapshot returned (v={vid}, {} bytes), a pair that no AddSnapshot invoked before it uploaded (id and bytes from different uploads)", data.len()));
+                        }
+                    }
+                    Resp::Error(e) => return Err(format!("client #{c}: GetSnapshot failed while snapshots were being replaced: {e}")),
+                    _ => {}
                 }
             }
         }
